@@ -788,6 +788,14 @@ func (s *SQLStore) QueryPayments(ctx context.Context, query Query) (Response,
 				createdBefore = time.Unix(
 					query.CreationDateEnd, 0,
 				).UTC()
+
+				// The filter has a granularity of one second
+				// (the KV store compares the creation second),
+				// so include the payments created at any point
+				// of the end second.
+				createdBefore = createdBefore.Add(
+					time.Second - time.Microsecond,
+				)
 			}
 
 			filterParams := sqlc.FilterPaymentsParams{
